@@ -16,8 +16,8 @@ open Png Png.Framing Png.WellFormed
 theorem nextFrameOp_next (cfg : Cfg) {t : TCfg} {f : Flags} (ht : t.IsIdentity f) (i i' : Info)
     (hcore : i'.core = i.core) (hleg : (i'.color, i'.depth) ∈ legalPairs)
     (hW : 1 ≤ (Sub.dims i').1) (hH : 1 ≤ (Sub.dims i').2) (M : Nat) (hM : 1 ≤ M) (r : R) (p : UInt8)
-    (hinfo : r.dec.info = some i) (hout : r.dec.out = []) (hcaf : r.sub.caf = true) (hrem : r.remaining = M)
-    (hfl : r.flags = f) (hrd : r.isReader = true) (hpb : r.pendingBuf = none) (hca : CachedLegal r)
+    (hinfo : r.dec.info = some i) (hout : r.dec.out = []) (hcaf : r.sub.caf = true) (hcur : r.sub.cur = none)
+    (hrem : r.remaining = M) (hfl : r.flags = f) (hrd : r.isReader = true) (hpb : r.pendingBuf = none) (hca : CachedLegal r)
     (pre : List (Ev × Bytes)) (len : Nat) (dM : Dec) (bM : Bytes) (hpre : ∀ e ∈ pre, PreEv e)
     (Thead : Trace cfg (fun _ => True) r.dec (avail r) (pre ++ [(.chunkBegin len fdAT, [])]) dM bM)
     (hiM : dM.info = some i') (houtM : dM.out = []) (hlim : (hdrOf i').lineSize ≤ dM.limit)
@@ -31,7 +31,7 @@ theorem nextFrameOp_next (cfg : Cfg) {t : TCfg} {f : Flags} (ht : t.IsIdentity f
       specFrame (hdrOf i') raw (List.replicate (outLineSize t i f i.width * i.height) p) = some buf' ∧
       buf'.length = outLineSize t i f i.width * i.height ∧
       Pending cfg i' (M - 1 + 1) r' [] dEnd bEnd ∧ r'.sub.caf = true ∧ r'.dec = dEnd ∧ avail r' = bEnd ∧ r'.remaining + 1 = M ∧
-      SameEnv r r' ∧ CachedLegal r' := by
+      SameEnv r r' ∧ CachedLegal r' ∧ r'.sub.cur = none := by
   have hcore' := hcore
   simp only [Info.core, Prod.mk.injEq] at hcore'
   obtain ⟨c1, c2, c3, c4, c5⟩ := hcore'
@@ -48,17 +48,18 @@ theorem nextFrameOp_next (cfg : Cfg) {t : TCfg} {f : Flags} (ht : t.IsIdentity f
     · intro s0 hs0; rw [hca1] at hs0; exact hca s0 hs0
   have hsz : outLineSize t i' f i'.width * i'.height = outLineSize t i f i.width * i.height := by
     rw [outLineSize_id ht, outLineSize_id ht, c1, c2, c3, c4]
-  obtain ⟨r', buf', hrun, hspec, hbl, h3, h4, h5, h6, h7, h8, h9⟩ :=
+  obtain ⟨r', buf', hrun, hspec, hbl, h3, h4, h5, h6, h7, h8, h9, h10⟩ :=
     frameInto_trace cfg ht i' hleg hW hH M raw dEnd bEnd r1 (List.replicate (outLineSize t i f i.width * i.height) p) hR hraw
       (by rw [hsz]; simp) (by simpa using hfit)
-  refine ⟨r', buf', ?_, hspec, by simpa using hbl, by rw [hM']; exact h3, h4, h5, h6, h7, hse1.trans h8, h9⟩
+  refine ⟨r', buf', ?_, hspec, by simpa using hbl, by rw [hM']; exact h3, h4, h5, h6, h7, hse1.trans h8, h9, h10⟩
   · show (if !r.isReader then _ else nextFrameOp cfg t r p) = _
     simp only [hrd, Bool.not_true, Bool.false_eq_true, if_false]
     unfold nextFrameOp
     have hio : infoOf r = some i := hinfo
     simp only [hio, callerBuf, hpb]
     rw [pendingBuf_none_eq hpb]
-    unfold nextFrameBuf
+    rw [nextFrameBuf_none cfg t r _ hcur]
+    unfold nextFrameBuf0
     have hrem0 : r.remaining ≠ 0 := by omega
     simp only [hrem0, if_false, hcaf, if_true, hru, hfl, hrun]
 
@@ -143,6 +144,7 @@ structure Between (cfg : Cfg) (f : Flags) (h : Header) (r : R) (i : Info) (s : N
   cap : 26 ≤ r.dec.cap
   limit : (frames.map fun x => (h.frame x.1).lineSize).sum ≤ r.dec.limit
   caf : r.sub.caf = true
+  cur : r.sub.cur = none
   remaining : r.remaining = frames.length
   flags : r.flags = f
   isReader : r.isReader = true
@@ -196,7 +198,8 @@ theorem frames_run (cfg : Cfg) (hI : cfg.InflateOk) (hC : cfg.CrcOk) {t : TCfg} 
     simp only [hB.isReader, Bool.not_true, Bool.false_eq_true, if_false]
     unfold nextFrameOp
     simp only [hio]
-    unfold nextFrameBuf
+    rw [nextFrameBuf_none cfg t _ _ (show ({ r with pendingBuf := none } : R).sub.cur = none from hB.cur)]
+    unfold nextFrameBuf0
     simp only [hrem, if_true]
   | cons fr rest ih =>
     intro ps r i s hps hok hseq hB
@@ -274,9 +277,9 @@ theorem frames_run (cfg : Cfg) (hI : cfg.InflateOk) (hC : cfg.CrcOk) {t : TCfg} 
         obtain ⟨hfit1, hfit2⟩ := frame_fits h hd fc (by have := hfc.xw; omega) (by have := hfc.yh; omega)
         have hszI : outLineSize t i f i.width * i.height = h.bufferSize := by
           rw [outLineSize_id ht, c1, c2, c3, c4, ← rowBytes_eq h hd]; rfl
-        obtain ⟨r', buf', hstep, hspec, hblen, hP', hcaf', hdec', hav', hrem', hse', hca'⟩ :=
+        obtain ⟨r', buf', hstep, hspec, hblen, hP', hcaf', hdec', hav', hrem', hse', hca', hcur'⟩ :=
           nextFrameOp_next cfg ht i i' hcorei hlegi (by rw [hdims]; exact hfc.w1) (by rw [hdims]; exact hfc.h1)
-            (rest.length + 1) (by omega) r p hB.flushed.info hB.flushed.out hB.caf (by rw [hB.remaining]; rfl) hB.flags
+            (rest.length + 1) (by omega) r p hB.flushed.info hB.flushed.out hB.caf hB.cur (by rw [hB.remaining]; rfl) hB.flags
             hB.isReader hB.pendingBuf hB.cached
             [(.chunkBegin 26 fcTL, []), (.frameControl fc', []), (.chunkComplete (cfg.crc (typeBytes fcTL ++ fctlBody fc')) fcTL, [])]
             (4 + z.length) dM _
@@ -291,7 +294,7 @@ theorem frames_run (cfg : Cfg) (hI : cfg.InflateOk) (hC : cfg.CrcOk) {t : TCfg} 
             raw dEnd restN pend Tdata hev hdata (by rw [hhdr]; exact hraw) (by rw [hhdr, hszI]; exact hfit2)
         -- the rest
         have hB' : Between cfg f h r' i' s' rest := by
-          refine ⟨hcorei.trans hB.core, ?_, ?_, ?_, ?_, ?_, hcaf', by omega, hse'.flags.trans hB.flags,
+          refine ⟨hcorei.trans hB.core, ?_, ?_, ?_, ?_, ?_, hcaf', hcur', by omega, hse'.flags.trans hB.flags,
             hse'.isReader.trans hB.isReader, hse'.pendingBuf.trans hB.pendingBuf, hca'⟩
           · rw [hdec', hLn, hTn]; exact hfluE
           · rw [hav', hRn]
@@ -442,12 +445,12 @@ theorem apng_wf (cfg : Cfg) (hI : cfg.InflateOk) (hC : cfg.CrcOk) {t : TCfg} {f 
     have hszI : outLineSize t i f i.width * i.height = h.bufferSize := by
       rw [outLineSize_id ht, c1, c2, c3, c4, ← rowBytes_eq h hd]; rfl
     -- the first frame
-    obtain ⟨r', buf0, hstep, hspec, hblen, hP', hcaf', hdec', hav', hrem', hse', hca'⟩ :=
+    obtain ⟨r', buf0, hstep, hspec, hblen, hP', hcaf', hdec', hav', hrem', hse', hca', hcur'⟩ :=
       nextFrameOp_ready cfg ht i hlegi (by rw [hdims]; exact hfc0.w1) (by rw [hdims]; exact hfc0.h1) N raw0 dEnd restN r p0
         hR hpb hrd (by rw [hhdr]; exact hraw0) (by rw [hhdr, hszI]; exact hfit2)
     -- the other frames
     have hB : Between cfg f h r' i 1 frames := by
-      refine ⟨hcore, ?_, ?_, ?_, ?_, ?_, hcaf', by omega, hse'.flags.trans hR.flags, hse'.isReader.trans hrd,
+      refine ⟨hcore, ?_, ?_, ?_, ?_, ?_, hcaf', hcur', by omega, hse'.flags.trans hR.flags, hse'.isReader.trans hrd,
         hse'.pendingBuf.trans hpb, hca'⟩
       · rw [hdec', hLn, hTn]; exact hflu
       · rw [hav', hRn]
@@ -546,11 +549,11 @@ theorem apng_default_wf (cfg : Cfg) (hI : cfg.InflateOk) (hC : cfg.CrcOk) {t : T
       rw [hN, hactl, hfctl]; simp
     have hszI : outLineSize t i f i.width * i.height = h.bufferSize := by
       rw [outLineSize_id ht, c1, c2, c3, c4, ← rowBytes_eq h hd]; rfl
-    obtain ⟨r', buf0, hstep, hspec, hblen, hP', hcaf', hdec', hav', hrem', hse', hca'⟩ :=
+    obtain ⟨r', buf0, hstep, hspec, hblen, hP', hcaf', hdec', hav', hrem', hse', hca', hcur'⟩ :=
       nextFrameOp_ready cfg ht i hlegi (by rw [hdims]; exact hw1) (by rw [hdims]; exact hh1) N raw0 dEnd restN r p0
         hR hpb hrd (by rw [hhdr]; exact hraw0) (by rw [hhdr, hszI]; exact Nat.le_refl _)
     have hB : Between cfg f h r' i 0 frames := by
-      refine ⟨hcore, ?_, ?_, ?_, ?_, ?_, hcaf', by omega, hse'.flags.trans hR.flags, hse'.isReader.trans hrd,
+      refine ⟨hcore, ?_, ?_, ?_, ?_, ?_, hcaf', hcur', by omega, hse'.flags.trans hR.flags, hse'.isReader.trans hrd,
         hse'.pendingBuf.trans hpb, hca'⟩
       · rw [hdec', hLn, hTn]; exact hflu
       · rw [hav', hRn]
